@@ -155,7 +155,8 @@ def run_pair(rep, rng, ci, cfg):
         for tag, A, seed in (("a", fields[0], seed1), ("b", fields[1], seed2)):
             o = runs.make_options(td, solve_time=cfg["solve_time"], dt_init=1e-3, dt_max=2e-2, adaptive=cfg["adaptive"],
                                   save_every=10, output_file=f"{td}/run_{tag}.h5", **scr)
-            sol, _ = runs.traced_solve(dev, o, A=A, currents=cur, seed_solution=seed)
+            sol, solver_ = runs.traced_solve(dev, o, A=A, currents=cur, seed_solution=seed)
+            runs.report_threading(rep, solver_, {"pair": ci, "run": tag})
             iters[tag] = None if not scr else np.array(sol.dynamics.screening_iterations)
             with h5py.File(sol.path, "r") as f:
                 fr = []
